@@ -1,6 +1,6 @@
 #!/usr/bin/env python3
 """False-alarm soak: run every registered quick check on the unchanged tree for several seeds, in a private copy of
-/verif and a private worktree of /repo. usage: soak.py <slot> <outfile> <seed>... [-- <check ids>]"""
+/verif and a private worktree of /repo. usage: soak.py <slot> <outfile> <seed>... [-- <check ids>]   (SOAK_TIER=thorough SOAK_TIMEOUT=5400 for the thorough tier)"""
 import json, os, subprocess, sys, time
 args = sys.argv[1:]
 ids = None
@@ -25,7 +25,7 @@ for seed in seeds:
     for pid in ids:
         t0 = time.time()
         try:
-            c = subprocess.run(["./check", pid, "--tier", "quick"], cwd=vcopy, env=env, capture_output=True, text=True, timeout=1800)
+            c = subprocess.run(["./check", pid, "--tier", os.environ.get("SOAK_TIER", "quick")], cwd=vcopy, env=env, capture_output=True, text=True, timeout=int(os.environ.get("SOAK_TIMEOUT", "1800")))
             out, rc = c.stdout + c.stderr, c.returncode
         except subprocess.TimeoutExpired:
             out, rc = "TIMEOUT", 124
